@@ -91,7 +91,7 @@ def run_check(prop, tier):
         binp = vlib.build_harness(sc, "wsconn")
         # ---- stage M
         invs = ["P_C12_NoPanic", "P_C12_Prefix"] if prop == "C12" else ["P_C13_QuietLocalClose", "P_C13_Reported", "P_C13_NoLateDelivery"]
-        live = ["L_C12_Returns"] if prop == "C12" else ["L_C13_Released"]
+        live = ["L_C12_Returns"] if prop == "C12" else ["L_C13_Released", "P_C13_ReadAfterCloseDropped"]
         with open(os.path.join(sd, "WsConn_M.cfg"), "w") as f:
             f.write("SPECIFICATION Spec\nCONSTANTS Writers = {1, 2%s}\n MsgsPerWriter = 2\n Defects = %s\n InitFrames <- %s\n"
                     " MaxFaults = 1\n AllowBlock = TRUE\n%s%sCHECK_DEADLOCK FALSE\n"
